@@ -228,16 +228,65 @@ Proof.
 Qed.
 
 (* ---------- pruning by summaries never changes the answer ---------- *)
-Lemma prune_first : forall s gc ty d path, summ_ok s ->
-  first_match (cont s) ty d (prune s gc ty d path) = first_match (cont s) ty d path.
+Lemma mem3_spec_false : forall x l, mem3 x l = false -> mem3 x l <> true.
+Proof. intros x l H. rewrite H. discriminate. Qed.
+Lemma consistent_cons_of : forall s ty d, consistent s (cons_of s ty d) ty d = true.
 Proof.
-  intros s gc ty d path SO. unfold prune. apply first_match_filter. intros c _ Hp.
-  destruct (lookup_ent (cont s) c ty d) as [k|] eqn:L; [|reflexivity]. exfalso.
-  apply lookup_ent_some in L. destruct L as [e [Hin [H1 [H2 [H3 _]]]]]. destruct (SO e Hin) as [S1 S2].
-  subst. rewrite S1, S2 in Hp. destruct gc; discriminate.
+  intros s ty d. unfold consistent, cons_of. apply forallb_forall. intros g Hg.
+  induction (tgov s ty) as [|h t IH]; simpl; [destruct Hg|].
+  destruct (N.eqb g h) eqn:E; [apply N.eqb_eq in E; subst; apply N.eqb_refl|].
+  apply IH. destruct Hg as [->|Hg]; [rewrite N.eqb_refl in E; discriminate|exact Hg].
 Qed.
-Lemma prune_NoDup : forall s gc ty d path, NoDup path -> NoDup (prune s gc ty d path).
+(* a collection that holds a dataset of type ty whose data ID satisfies the constraint survives the pruning *)
+Lemma keep_holder : forall s cons ty d c k, summ_ok s -> consistent s cons ty d = true ->
+  lookup_ent (cont s) c ty d = Some k -> keep s cons ty c = true.
+Proof.
+  intros s cons ty d c k SO CS L. apply lookup_ent_some in L. destruct L as [e [Hin [H1 [H2 [H3 _]]]]].
+  destruct (SO e Hin) as [_ [S1 S2]]. subst. unfold keep. rewrite S1. simpl.
+  apply forallb_forall. intros g Hg. unfold gov_ok.
+  unfold consistent in CS. rewrite forallb_forall in CS. specialize (CS g Hg).
+  destruct (lookupNN g cons) as [v|]; [|reflexivity]. apply N.eqb_eq in CS. subst v.
+  rewrite (S2 g Hg). apply orb_true_r.
+Qed.
+Lemma prune_first : forall s cons ty d path, summ_ok s -> consistent s cons ty d = true ->
+  first_match (cont s) ty d (prune s cons ty path) = first_match (cont s) ty d path.
+Proof.
+  intros s cons ty d path SO CS. unfold prune. apply first_match_filter. intros c _ Hp.
+  destruct (lookup_ent (cont s) c ty d) as [k|] eqn:L; [|reflexivity]. exfalso.
+  rewrite (keep_holder s cons ty d c k SO CS L) in Hp. discriminate.
+Qed.
+Lemma prune_NoDup : forall s cons ty path, NoDup path -> NoDup (prune s cons ty path).
 Proof. intros. unfold prune. apply NoDup_filter. assumption. Qed.
+Lemma skip_calib_NoDup : forall s path, NoDup path -> NoDup (skip_calib s path).
+Proof. intros. unfold skip_calib. apply NoDup_filter. assumption. Qed.
+
+(* the governor test looks only at the governor dimensions of the DATASET TYPE: constraints that agree on
+   those prune the same collections (a constraint on a governor the type does not have prunes nothing) *)
+Lemma keep_own_governors : forall s cons cons' ty c,
+  (forall g, In g (tgov s ty) -> lookupNN g cons = lookupNN g cons') -> keep s cons ty c = keep s cons' ty c.
+Proof.
+  intros s cons cons' ty c H. unfold keep. f_equal.
+  induction (tgov s ty) as [|g t IH]; simpl; [reflexivity|].
+  unfold gov_ok at 1 3. rewrite (H g) by (left; reflexivity). f_equal. apply IH. intros g' Hg'. apply H. right. exact Hg'.
+Qed.
+Lemma prune_own_governors : forall s cons cons' ty path,
+  (forall g, In g (tgov s ty) -> lookupNN g cons = lookupNN g cons') -> prune s cons ty path = prune s cons' ty path.
+Proof.
+  intros. unfold prune. apply filter_ext_in'. intros c _. apply keep_own_governors. assumption.
+Qed.
+Lemma consistent_own_governors : forall s cons cons' ty d,
+  (forall g, In g (tgov s ty) -> lookupNN g cons = lookupNN g cons') -> consistent s cons ty d = consistent s cons' ty d.
+Proof.
+  intros s cons cons' ty d H. unfold consistent.
+  induction (tgov s ty) as [|g t IH]; simpl; [reflexivity|].
+  rewrite (H g) by (left; reflexivity). f_equal. apply IH. intros g' Hg'. apply H. right. exact Hg'.
+Qed.
+Lemma foreign_lookup : forall (gs : list N) g v cons, ~ In g gs ->
+  forall g', In g' gs -> lookupNN g' ((g, v) :: cons) = lookupNN g' cons.
+Proof.
+  intros gs g v cons Hn g' Hg'. simpl. destruct (N.eqb g' g) eqn:E; [|reflexivity].
+  apply N.eqb_eq in E. subst. contradiction.
+Qed.
 
 Lemma flatten_NoDup : forall s ns path, flatten s ns = Ok path -> NoDup path.
 Proof.
@@ -245,27 +294,112 @@ Proof.
   inversion H; subst. apply dedup_NoDup.
 Qed.
 
+(* ---------- CALIBRATION collections ---------- *)
+(* a dataset type that is not a calibration type has no member in a CALIBRATION collection *)
+Lemma calib_no_plain : forall s c ty d, summ_ok s -> calib_ok s -> is_calib s c = true -> is_calty s ty = false ->
+  lookup_ent (cont s) c ty d = None.
+Proof.
+  intros s c ty d SO CK IC NT. destruct (lookup_ent (cont s) c ty d) as [k|] eqn:L; [|reflexivity]. exfalso.
+  apply lookup_ent_some in L. destruct L as [e [Hin [H1 [H2 [H3 _]]]]]. destruct (SO e Hin) as [_ [S1 _]]. subst.
+  specialize (CK _ _ S1). unfold is_calib in IC. destruct (ctype_of (colls s) (ecoll e)) as [[| | |]|]; try discriminate.
+  congruence.
+Qed.
+Lemma skip_calib_first : forall s ty d path, summ_ok s -> calib_ok s -> is_calty s ty = false ->
+  first_match (cont s) ty d (skip_calib s path) = first_match (cont s) ty d path.
+Proof.
+  intros s ty d path SO CK NT. unfold skip_calib. apply first_match_filter. intros c _ Hp.
+  apply negb_false_iff in Hp. apply calib_no_plain; assumption.
+Qed.
+Lemma skip_calib_none : forall s path, forallb (fun c => negb (is_calib s c)) path = true -> skip_calib s path = path.
+Proof.
+  intros s path H. unfold skip_calib. induction path as [|c t IH]; simpl in *; [reflexivity|].
+  apply andb_true_iff in H. destruct H as [H1 H2]. rewrite H1. f_equal. apply IH. exact H2.
+Qed.
+Lemma skip_prune_comm : forall s cons ty path, skip_calib s (prune s cons ty path) = prune s cons ty (skip_calib s path).
+Proof.
+  intros. unfold skip_calib, prune. rewrite !filter_filter. apply filter_ext_in'. intros. apply andb_comm.
+Qed.
+
 (* ---------- the three formulations ---------- *)
-Lemma find_rank_first : forall s ty d ns path, wf s -> flatten s ns = Ok path ->
-  find_rank s ty d ns = Ok (first_match (cont s) ty d path).
+(* findDataset without timespan: first match of the path with the CALIBRATION collections left out *)
+Lemma find_rank_skips : forall s ty d ns path, wf s -> flatten s ns = Ok path ->
+  find_rank s ty d ns = Ok (first_match (cont s) ty d (skip_calib s path)).
 Proof.
   intros s ty d ns path [_ [_ [_ [CO [SO _]]]]] F. unfold find_rank. rewrite F. simpl. f_equal.
-  rewrite min_rank_first; [apply prune_first; assumption| |assumption].
-  apply prune_NoDup. eapply flatten_NoDup; eauto.
+  rewrite min_rank_first; [|apply skip_calib_NoDup, prune_NoDup; eapply flatten_NoDup; eauto|assumption].
+  rewrite skip_prune_comm. apply prune_first; [assumption|apply consistent_cons_of].
 Qed.
-Lemma find_legacy_first : forall s gc ty d ns path, wf s -> flatten s ns = Ok path ->
-  find_legacy s gc ty d ns = Ok (opt_list (first_match (cont s) ty d path)).
+Lemma find_rank_first : forall s ty d ns path, wf s -> is_calty s ty = false -> flatten s ns = Ok path ->
+  find_rank s ty d ns = Ok (first_match (cont s) ty d path).
 Proof.
-  intros s gc ty d ns path [_ [_ [_ [CO [SO _]]]]] F. unfold find_legacy. rewrite F. simpl. f_equal.
-  rewrite search_rows_first; [rewrite prune_first by assumption; reflexivity| |assumption].
-  apply prune_NoDup. eapply flatten_NoDup; eauto.
+  intros s ty d ns path Hwf NT F. rewrite (find_rank_skips _ _ _ _ _ Hwf F). f_equal.
+  destruct Hwf as [_ [_ [_ [_ [SO [_ CK]]]]]]. apply skip_calib_first; assumption.
 Qed.
-Lemma find_window_first : forall s gc ty d ns path, wf s -> flattenB s ns = Ok path -> NoDup path ->
-  find_window s gc ty d ns = Ok (opt_list (first_match (cont s) ty d path)).
+(* Butler.get: a calibration dataset type is looked up with an unbounded timespan, nothing is skipped *)
+Lemma find_get_first : forall s ty d ns path, wf s -> flatten s ns = Ok path ->
+  find_get s ty d ns = Ok (first_match (cont s) ty d path).
 Proof.
-  intros s gc ty d ns path [_ [_ [_ [CO [SO _]]]]] F ND. unfold find_window. rewrite F. simpl. f_equal.
-  rewrite search_rows_first; [rewrite prune_first by assumption; reflexivity| |assumption].
-  apply prune_NoDup. assumption.
+  intros s ty d ns path Hwf F. pose proof Hwf as [_ [_ [_ [CO [SO [_ CK]]]]]]. unfold find_get. rewrite F. simpl. f_equal.
+  pose proof (flatten_NoDup _ _ _ F) as ND.
+  destruct (is_calty s ty) eqn:CT.
+  - rewrite min_rank_first; [|apply prune_NoDup; assumption|assumption].
+    apply prune_first; [assumption|apply consistent_cons_of].
+  - rewrite min_rank_first; [|apply skip_calib_NoDup, prune_NoDup; assumption|assumption].
+    rewrite skip_prune_comm, prune_first; [|assumption|apply consistent_cons_of].
+    apply skip_calib_first; assumption.
+Qed.
+Lemma answer_first : forall s cons ty d fc, NoDup fc -> cont_ok (cont s) ->
+  answer s cons ty d fc = if consistent s cons ty d then opt_list (first_match (cont s) ty d fc) else [].
+Proof. intros. unfold answer. destruct (consistent s cons ty d); [apply search_rows_first; assumption|reflexivity]. Qed.
+(* legacy: the general form (calibration collections included) *)
+Lemma find_legacy_general : forall s cons ty d ns path, wf s -> flatten s ns = Ok path ->
+  find_legacy s cons ty d ns =
+    if existsb (fun c => is_calib s c && memN c ns) (prune s cons ty path) then Err ENotImpl
+    else Ok (if consistent s cons ty d then opt_list (first_match (cont s) ty d path) else []).
+Proof.
+  intros s cons ty d ns path [_ [_ [_ [CO [SO _]]]]] F. unfold find_legacy. rewrite F.
+  destruct (existsb _ (prune s cons ty path)); [reflexivity|]. f_equal.
+  rewrite answer_first; [|apply prune_NoDup; eapply flatten_NoDup; eauto|assumption].
+  destruct (consistent s cons ty d) eqn:CS; [|reflexivity]. rewrite prune_first by assumption. reflexivity.
+Qed.
+(* a CALIBRATION collection survives the pruning only for a calibration dataset type *)
+Lemma no_calib_survives : forall s cons ty ns path, calib_ok s -> is_calty s ty = false ->
+  existsb (fun c => is_calib s c && memN c ns) (prune s cons ty path) = false.
+Proof.
+  intros s cons ty ns path CK NT. destruct (existsb _ (prune s cons ty path)) eqn:E; [|reflexivity]. exfalso.
+  apply existsb_exists in E. destruct E as [c [Hc Hb]]. unfold prune in Hc. apply filter_In in Hc. destruct Hc as [_ Kp].
+  apply andb_true_iff in Hb. destruct Hb as [IC _]. unfold keep in Kp. apply andb_true_iff in Kp. destruct Kp as [M _].
+  specialize (CK _ _ M). unfold is_calib in IC. destruct (ctype_of (colls s) c) as [[| | |]|]; try discriminate. congruence.
+Qed.
+Lemma find_legacy_first : forall s cons ty d ns path, wf s -> is_calty s ty = false -> consistent s cons ty d = true ->
+  flatten s ns = Ok path ->
+  find_legacy s cons ty d ns = Ok (opt_list (first_match (cont s) ty d path)).
+Proof.
+  intros s cons ty d ns path Hwf NT CS F. rewrite (find_legacy_general _ _ _ _ _ _ Hwf F).
+  destruct Hwf as [_ [_ [_ [_ [_ [_ CK]]]]]]. rewrite no_calib_survives by assumption. rewrite CS. reflexivity.
+Qed.
+Lemma find_window_general : forall s cons ty d ns path, wf s -> flattenB s ns = Ok path -> NoDup path ->
+  find_window s cons ty d ns = Ok (if consistent s cons ty d then opt_list (first_match (cont s) ty d path) else []).
+Proof.
+  intros s cons ty d ns path [_ [_ [_ [CO [SO _]]]]] F ND. unfold find_window. rewrite F. simpl. f_equal.
+  rewrite answer_first; [|apply prune_NoDup; assumption|assumption].
+  destruct (consistent s cons ty d) eqn:CS; [|reflexivity]. rewrite prune_first by assumption. reflexivity.
+Qed.
+Lemma find_window_first : forall s cons ty d ns path, wf s -> consistent s cons ty d = true ->
+  flattenB s ns = Ok path -> NoDup path ->
+  find_window s cons ty d ns = Ok (opt_list (first_match (cont s) ty d path)).
+Proof. intros s cons ty d ns path Hwf CS F ND. rewrite (find_window_general _ _ _ _ _ _ Hwf F ND), CS. reflexivity. Qed.
+
+(* a constraint on a governor dimension the dataset type does not have changes neither query formulation *)
+Lemma foreign_constraint_p : forall s g v cons ty d ns, ~ In g (tgov s ty) ->
+  find_window s ((g, v) :: cons) ty d ns = find_window s cons ty d ns /\
+  find_legacy s ((g, v) :: cons) ty d ns = find_legacy s cons ty d ns.
+Proof.
+  intros s g v cons ty d ns Hn. pose proof (foreign_lookup (tgov s ty) g v cons Hn) as FL.
+  unfold find_window, find_legacy, answer.
+  rewrite (consistent_own_governors s _ cons ty d FL). split.
+  - destruct (flattenB s ns) as [path|e]; [|reflexivity]. simpl. rewrite (prune_own_governors s _ cons ty path FL). reflexivity.
+  - destruct (flatten s ns) as [path|e]; [|reflexivity]. rewrite (prune_own_governors s _ cons ty path FL). reflexivity.
 Qed.
 
 (* ---------- a chain is its flattening ---------- *)
